@@ -6,6 +6,10 @@ package cli
 
 // The process-exit indirection does not return (assumption A-exit); a call is recorded as evExit(code).
 //@ noreturn var exiter
+// ... and the function the library installs there is what makes that true: it ends the process with the code it is given
+//@ func init$1
+//@   ensures never-returns: false
+//@   exits code: trace == old(trace) ++ seq(evExit(code))
 
 // --- help token search (C14) ---------------------------------------------------------------------------------------
 //@ pure func isHelp(a string) bool = a == "-h" || a == "--help"
